@@ -66,6 +66,12 @@ CHECKS = {
         note="Trusted: z3, CPython, forksym/ReShim. Header family: pre-state = clean mapping with 0..1 symbolic entries (induction hypothesis), "
              "names/values <=2/<=3 chars. Cookie names <=2/<=3, values <=3/<=4 chars, full Unicode. Redirect: urllib.parse.quote is replaced by a "
              "percent-encoding model that takes baize's real `safe` argument and is validated against the real quote on every path."),
+    "C15": dict(
+        technique="fork-on-branch symbolic execution of the real multipart stream helpers with SYMBOLIC limits (all limit values decided at once per form/chunking) and of the decoder's hold-back on symbolic part content, z3",
+        design_ref="DESIGN.md §4 C15",
+        note="Trusted: z3, CPython, forksym/ReShim (each path replayed on the unshimmed code). Forms (part kinds/sizes) and chunkings are enumerated; "
+             "both limits are unbounded z3 integers (memory limit also None). Buffer family: 1-2 (3) leading bytes over 0..255, then 14 (24) symbolic "
+             "non-line-break bytes, chunk sizes 1/5 (1/3/8), also with the boundary text mentioned inside the content; bound = chunk + delimiter + 4."),
     "C16": dict(
         technique="fork-on-branch symbolic execution: response-side cookie quoting fed into the real request-side parser (incl. stdlib _unquote run on proxies) over all 0..255 value characters; expiry with symbolic now/expires/max-age and a symbolic UTC offset",
         design_ref="DESIGN.md §4 C16",
